@@ -23,6 +23,7 @@ type endpoint struct {
 	sendAsync func(client string, req ocpp.Request, cb func(ocpp.Response, error)) error
 	sendSync  func(req ocpp.Request) (ocpp.Response, error) // client roles only
 	stop      func()
+	start     func()
 	jclient   *ocppj.Client
 	jserver   *ocppj.Server
 	onConn    func(id string) // application-level handlers (optional), set before start
@@ -105,6 +106,7 @@ func newEndpoint(ver, role string, o epOpts) *endpoint {
 			e.sendAsync = func(_ string, req ocpp.Request, cb func(ocpp.Response, error)) error { return cp.SendRequestAsync(req, cb) }
 			e.sendSync = cp.SendRequest
 			e.stop = cp.Stop
+			e.start = func() { _ = cp.Start("ws://fake") }
 			if !o.noStart {
 				_ = cp.Start("ws://fake")
 			}
@@ -114,6 +116,7 @@ func newEndpoint(ver, role string, o epOpts) *endpoint {
 			e.sendAsync = func(_ string, req ocpp.Request, cb func(ocpp.Response, error)) error { return cs.SendRequestAsync(req, cb) }
 			e.sendSync = cs.SendRequest
 			e.stop = cs.Stop
+			e.start = func() { _ = cs.Start("ws://fake") }
 			if !o.noStart {
 				_ = cs.Start("ws://fake")
 			}
@@ -144,6 +147,7 @@ func newEndpoint(ver, role string, o epOpts) *endpoint {
 			}
 			e.sendAsync = cs.SendRequestAsync
 			e.stop = cs.Stop
+			e.start = func() { go cs.Start(0, "/"); waitRunning(d) }
 			if !o.noStart {
 				go cs.Start(0, "/")
 			}
@@ -164,6 +168,7 @@ func newEndpoint(ver, role string, o epOpts) *endpoint {
 			}
 			e.sendAsync = cs.SendRequestAsync
 			e.stop = cs.Stop
+			e.start = func() { go cs.Start(0, "/"); waitRunning(d) }
 			if !o.noStart {
 				go cs.Start(0, "/")
 			}
@@ -179,6 +184,12 @@ func newEndpoint(ver, role string, o epOpts) *endpoint {
 		}
 	}
 	return e
+}
+
+func waitRunning(d *ocppj.DefaultServerDispatcher) {
+	for i := 0; i < 5000 && !d.IsRunning(); i++ {
+		time.Sleep(50 * time.Microsecond)
+	}
 }
 
 func (e *endpoint) deliver(client string, data []byte) error {
